@@ -132,6 +132,24 @@ func (st Stage) terminal(recv *Expr) *Expr {
 			lam([]string{"l"}, MCall(MCall(l, "map", lam([]string{"e"}, mod(Bin("*", w(e), Int(2))))), "sum")),
 			lam([]string{"l"}, MCall(MCall(l, "accept", lam([]string{"e"}, Bin("=", Bin("%", e, Int(2)), Int(0)))), "top", Int(3))),
 		}))
+	case "multiUseRejected":
+		// error path: consumers that are fine, followed by an entry that multiUse rejects
+		size := lam([]string{"l"}, MCall(l, "size"))
+		sum := lam([]string{"l"}, MCall(l, "reduce", lam([]string{"a", "b"}, Bin("+", a, b))))
+		switch st.P % 3 {
+		case 0:
+			return MCall(recv, "multiUse", Map([]string{"n", "bad"}, []*Expr{size, Int(3)}))
+		case 1:
+			return MCall(recv, "multiUse", Map([]string{"s", "bad"}, []*Expr{sum, lam([]string{"x", "y"}, Bin("*", Var("x"), Var("y")))}))
+		}
+		return MCall(recv, "multiUse", Map([]string{"n", "s", "bad"}, []*Expr{lam([]string{"l"}, MCall(l, "first")), sum, Str("c")}))
+	case "multiUseFailingConsumer":
+		// error path: one consumer fails at once, the others still want the whole list
+		return MCall(recv, "multiUse", Map([]string{"n", "f", "s"}, []*Expr{
+			lam([]string{"l"}, MCall(l, "size")),
+			lam([]string{"l"}, SCall("throw", Str("T#0#"))),
+			lam([]string{"l"}, MCall(MCall(l, "map", lam([]string{"e"}, mod(Bin("*", w(e), Int(2))))), "sum")),
+		}))
 	case "list":
 		return recv // the lazy list itself is the result (forced by the host)
 	case "eval":
@@ -224,7 +242,7 @@ func GenSpec(t *rapid.T, cfg PipeConfig, depth int) *Spec {
 	}
 	term := terminals
 	if cfg.EarlyStop {
-		term = []string{"first", "topSize", "present", "indexWhere", "first", "topSize", "size", "multiUse", "reduce"}
+		term = []string{"first", "topSize", "present", "indexWhere", "first", "topSize", "size", "multiUse", "reduce", "multiUseRejected", "multiUseFailingConsumer"}
 	}
 	sp.Terminal = Stage{Name: term[rapid.IntRange(0, len(term)-1).Draw(t, "terminal")], Fail: -1, Profile: "fast", P: rapid.IntRange(0, 60).Draw(t, "tp")}
 	if cfg.Slow && rapid.IntRange(0, 3).Draw(t, "slowTerminal") == 0 {
